@@ -495,3 +495,122 @@ Section Table.
       + intro E. rewrite E. discriminate.
   Qed.
 End Table.
+
+(* ---- the retry loop never runs out of fuel, whatever the sub-protocols do ------- *)
+
+(* one representative method per bit of the bitmask table *)
+Definition allm : list meth := [mCTB; mFS; mKRB; mSSL; mPW; mTOK; mSCI].
+Definition cnt (a : Z) : nat := length (filter (sel a) allm).
+
+Lemma filter_or_len {A} (f g : A -> bool) l :
+  (length (filter (fun x => f x || g x) l) <= length (filter f l) + length (filter g l))%nat.
+Proof.
+  induction l as [|x r IH]; simpl; [lia|].
+  destruct (f x), (g x); simpl; lia.
+Qed.
+
+Lemma filter_ext_len {A} (f g : A -> bool) l :
+  (forall x, f x = g x) -> length (filter f l) = length (filter g l).
+Proof. intro H. induction l as [|x r IH]; simpl; [reflexivity|]. rewrite H. destruct (g x); simpl; lia. Qed.
+
+Lemma filter_ext_len_in {A} (f g : A -> bool) l :
+  (forall x, In x l -> f x = g x) -> length (filter f l) = length (filter g l).
+Proof.
+  induction l as [|x r IH]; intro H; simpl; [reflexivity|].
+  rewrite (H x (or_introl eq_refl)).
+  assert (E : length (filter f r) = length (filter g r)) by (apply IH; intros y Hy; apply H; right; exact Hy).
+  destruct (g x); simpl; rewrite E; reflexivity.
+Qed.
+
+Lemma cnt_bit m : (cnt (bit m) <= 1)%nat.
+Proof. destruct m; vm_compute; lia. Qed.
+
+Lemma cnt_lor a m : (cnt (Z.lor a (bit m)) <= cnt a + 1)%nat.
+Proof.
+  unfold cnt. rewrite (filter_ext_len (sel (Z.lor a (bit m))) (fun x => sel a x || sel (bit m) x)).
+  - pose proof (filter_or_len (sel a) (sel (bit m)) allm). pose proof (cnt_bit m). unfold cnt in *. lia.
+  - intro x. apply sel_lor.
+Qed.
+
+Lemma cnt_fold ms : forall a, (cnt (fold_left (fun a m => Z.lor a (bit m)) ms a) <= cnt a + length ms)%nat.
+Proof.
+  induction ms as [|m r IH]; intro a; simpl; [lia|].
+  pose proof (IH (Z.lor a (bit m))). pose proof (cnt_lor a m). lia.
+Qed.
+
+Lemma cnt_mask ms : (cnt (mask ms) <= length ms)%nat.
+Proof. unfold mask. pose proof (cnt_fold ms 0). assert (cnt 0 = 0%nat) by (vm_compute; reflexivity). lia. Qed.
+
+(* every method with a non-zero bit maps back to a method with the same bit *)
+Lemma of_bit_some m : bit m <> 0 -> exists mc, of_bit (bit m) = Some mc /\ bit mc = bit m /\ In mc allm.
+Proof.
+  destruct m; simpl; intro H; try congruence;
+    eexists; (split; [reflexivity|]); split; try reflexivity; simpl; tauto.
+Qed.
+
+Lemma sel_remove a mc x : In mc allm -> In x allm ->
+  sel (Z.land a (Z.lnot (bit mc))) x = sel a x && negb (meth_eqb x mc).
+Proof.
+  intros Hm Hx. unfold sel. rewrite <- Z.land_assoc.
+  simpl in Hm, Hx.
+  repeat (destruct Hm as [<-|Hm]; [| ]); try contradiction;
+    repeat (destruct Hx as [<-|Hx]; [| ]); try contradiction;
+    match goal with |- context [Z.land (Z.lnot (bit ?p)) (bit ?q)] =>
+      let v := eval vm_compute in (Z.land (Z.lnot (bit p)) (bit q)) in
+      change (Z.land (Z.lnot (bit p)) (bit q)) with v end;
+    simpl; rewrite ?andb_true_r, ?andb_false_r, ?Z.land_0_r; reflexivity.
+Qed.
+
+Lemma filter_drop_len (f : meth -> bool) (mc : meth) l :
+  NoDup l -> In mc l -> f mc = true ->
+  S (length (filter (fun x => f x && negb (meth_eqb x mc)) l)) = length (filter f l).
+Proof.
+  induction l as [|x r IH]; intros Hnd Hin Hf; [contradiction|].
+  inversion Hnd as [|? ? Hnx Hndr]; subst. simpl.
+  destruct Hin as [->|Hin].
+  - rewrite Hf, meth_eqb_refl. simpl.
+    f_equal. apply filter_ext_len_in. intros y Hy.
+    assert (y <> mc) by (intro; subst; contradiction).
+    apply meth_eqb_neq in H. rewrite H. simpl. apply andb_true_r.
+  - assert (x <> mc) by (intro; subst; contradiction).
+    apply meth_eqb_neq in H. rewrite H. simpl. rewrite andb_true_r.
+    destruct (f x); simpl; rewrite <- (IH Hndr Hin Hf); reflexivity.
+Qed.
+
+Lemma NoDup_allm : NoDup allm.
+Proof. unfold allm. repeat constructor; simpl; intuition discriminate. Qed.
+
+Lemma cnt_remove a mc : In mc allm -> sel a mc = true -> S (cnt (Z.land a (Z.lnot (bit mc)))) = cnt a.
+Proof.
+  intros Hin Hs. unfold cnt.
+  rewrite (filter_ext_len_in (sel (Z.land a (Z.lnot (bit mc)))) (fun x => sel a x && negb (meth_eqb x mc)))
+    by (intros; apply sel_remove; assumption).
+  apply filter_drop_len; [apply NoDup_allm | assumption | assumption].
+Qed.
+
+Lemma sel_same_bit a m mc : bit mc = bit m -> sel a mc = sel a m.
+Proof. unfold sel. intros ->. reflexivity. Qed.
+
+(* whatever the sub-protocols do ([aok] arbitrary) and whatever the two lists are,
+   [cnt avail] rounds suffice: each failed round withdraws one bit *)
+Lemma loop_total aok sm cms : forall fuel a, (cnt a < fuel)%nat -> snd (auth_loop fuel aok sm cms a) <> LFuel.
+Proof.
+  induction fuel as [|fuel IH]; intros a H; [lia|].
+  rewrite auth_loop_S.
+  destruct (a =? 0); [simpl; discriminate|].
+  destruct (srv_select sm a) as [ms|] eqn:E; [|simpl; discriminate].
+  apply srv_select_some in E as [_ Hs].
+  assert (Hb : bit ms <> 0).
+  { unfold sel in Hs. intro Z0. rewrite Z0, Z.land_0_r in Hs. discriminate. }
+  destruct (of_bit_some ms Hb) as [mc (Eo & Eb & Hin)].
+  cbv zeta. rewrite Eo.
+  destruct (negb (mem mc cms)); [simpl; discriminate|].
+  destruct (meth_eqb mc ms && aok ms); [simpl; discriminate|].
+  unfold cons_round. simpl snd. apply IH.
+  assert (Hsel : sel a mc = true) by (rewrite (sel_same_bit a ms mc Eb); exact Hs).
+  pose proof (cnt_remove a mc Hin Hsel). lia.
+Qed.
+
+Lemma loop_never_out_of_fuel aok sm cms :
+  snd (auth_loop (S (length cms)) aok sm cms (mask cms)) <> LFuel.
+Proof. apply loop_total. pose proof (cnt_mask cms). lia. Qed.
